@@ -2,6 +2,7 @@ import Psa.JsonIO
 import Psa.Render
 import Psa.Eval
 import Psa.RegistrySpec
+import Psa.AdmitIO
 import Psa.Generated.Tables
 /-! psa-driver: one JSON object per input line, one JSON object per output line. -/
 open Lean PSA PSA.IO
@@ -67,6 +68,7 @@ def handle (j : Json) : R Json := do
     return Json.mkObj [("valid", Json.bool true),
       ("results", Json.arr (qs.map (fun q => nums (reg.evaluate q.1 q.2))).toArray),
       ("spec", Json.arr (qs.map (fun q => nums (spec cs q.1 (clampV reg.maxVersion.minor q.2)))).toArray)]
+  | "admit" => admitOp j
   | _ => throw s!"unknown op {op}"
 
 partial def loop (hin hout : IO.FS.Stream) : IO Unit := do
